@@ -1225,6 +1225,14 @@ fn run_inner(case: &Case) -> String {
                 "ok".into()
             }
         };
+        // When a call fails on the multi-threaded executor it returns at once; a worker that was in the middle of
+        // a handler finishes that handler (and only that one) before it sees the abort signal.  Such a straggler
+        // belongs to the failing command, not to the next one: give it the time to log before the log is drained.
+        if case.threads > 1
+            && ["panic", "norecip", "dead", "loss", "timeout", "oos"].iter().any(|k| r.starts_with(k))
+        {
+            std::thread::sleep(Duration::from_millis(40));
+        }
         out.push(format!("{} @{} [{}]", r, ns(simu.time()), drain(&log)));
     }
     // the simulation goes first: dropping a never-added mailbox while a sender task is still blocked
